@@ -34,6 +34,10 @@ def sig_of(rec):
         parts.append("closed-set-differs")
     if not d.get("okBan", True):
         parts.append("ban-entry-differs")
+    if not d.get("okState", True):
+        parts.append("state-changed-before-login")
+    if not d.get("okChurn", True):
+        parts.append("id-of-connected-user-reused")
     return "%s/%s" % (rec.get("prop"), "/".join(parts))
 
 
@@ -47,7 +51,7 @@ def run(ctx, prop):
     ctx.model_check("MC_Server", cfg, timeout=2400, coverage=False)
     # 2. behaviours -> scripts
     batches = 1 if quick else 6
-    nsim = 60 if quick else 150
+    nsim = {"C04": 60, "C12": 40, "C13": 30, "C17": 60}[prop] if quick else 150
     scripts = []
     for b in range(batches):
         _, items = ctx.generate("MC_Server", "Gen_Server_%s.cfg" % prop, "gen%d.ndjson" % b, simulate=nsim, depth=32,
@@ -61,7 +65,22 @@ def run(ctx, prop):
     ctx.sample({"script": scripts[0]["steps"][:12]})
     # 3. execute on the real server
     lp = ctx.path("log.ndjson")
-    ctx.harness(["srv", "-scripts", sp, "-out", lp, "-par", "64"], timeout=1500)
+    l1, l2 = ctx.path("log1.ndjson"), ctx.path("log2.ndjson")
+    ctx.harness(["srv", "-scripts", sp, "-out", l1, "-par", "64"], timeout=1500)
+    # the same behaviours again with seeded random names / messages of boundary sizes (8192-byte chat limit etc.)
+    if prop != "C17":
+        ctx.harness(["srv", "-scripts", sp, "-out", l2, "-par", "64", "-decorate", str(ctx.seed + 1)], timeout=1500)
+    else:
+        open(l2, "w").close()
+    off = len(scripts)
+    with open(lp, "w") as f:
+        f.write(open(l1).read())
+        for line in open(l2):
+            e = json.loads(line)
+            e["run"] = e["run"] + off
+            f.write(json.dumps(e) + "\n")
+    if prop != "C17":
+        scripts = scripts + scripts
     # 4. validate the recorded log against the specification
     viol, drift = ctx.validate("Trace_Server", "Trace_Server.cfg", lp, timeout=1500)
     ctx.cov["traces_validated_against_impl"] += len(scripts)
